@@ -29,6 +29,20 @@ Theorem C13_manual_retry_gate s t :
 Proof. exact (manual_retry_gate s t). Qed.
 Print Assumptions C13_manual_retry_gate.
 
+(* One attempt of `run` of a live retry task, in every state of every guarded sequence, for every reply sequence:
+   the loop fuel is never exhausted (the while loop ends), it issues at most one registration and at most one
+   add_appointment per locator of the retrier's set (no duplicates, nothing outside the set). *)
+Theorem C13_run_bounded ops t a :
+  ops_fresh f_init ops = true ->
+  let s := frun f_init ops in
+  In t (f_tasks s) ->
+  fst (run_attempt s t a) = fst (run_attempt s t a) /\
+  snd (run_attempt s t a) <> RunFuel /\
+  exists reg sent, f_log (fst (run_attempt s t a)) = f_log s ++ reg ++ map (ReqAdd t) sent /\
+                   (reg = [] \/ reg = [ReqRegister t]) /\ NoDup sent /\ incl sent (retrier_pending s t).
+Proof. exact (run_bounded ops t a). Qed.
+Print Assumptions C13_run_bounded.
+
 (* non-vacuity: an outage, the retrier started by the manager, recovery, delivery *)
 Example C13_delivery_example :
   let s := frun f_init [FRegister 0 (w_good 1); FRevocation 7 [] [(0, AConnErr)]; FManagerTick []; FManagerTick [];
